@@ -336,6 +336,30 @@ pub fn version_matrix(opts: &Opts, st: &mut Stats) -> Vec<History> {
             }
         }
     }
+    // the same gates on a book without bids and on an empty book (a gate must not depend on what the
+    // book holds); plain message and one override
+    for (label, with_ask) in [("asks-only", true), ("empty-book", false)] {
+        let mut st1 = Stats::default();
+        let mut s = Script::new(&format!("W4:versions:{}", label), opts, &mut st1);
+        s.market(&Market { ask_fee: Some(("feea", "0.01")), bid_fee: Some(("feeb", "0.02")), ..Default::default() });
+        if with_ask {
+            s.ask(1, "alice", "base", "10", 10);
+            s.ask(2, "carol", "conv0", "11", 5);
+        }
+        let (b2, _) = s.done();
+        st.merge(st1);
+        for v in &all {
+            for m in [json!({}), json!({"approvers": ["appr1", "dave"]})] {
+                let mut h = fork(&b2, &format!("W4:versions:{}:{}", label, v));
+                h.step(version_op(v), opts, st);
+                h.step(Op::Migrate { msg: m }, opts, st);
+                st.count("C14", "matrix_migrations");
+                if !h.found.is_empty() {
+                    found.push(h);
+                }
+            }
+        }
+    }
     // a large book of old-format bids (conversion must not depend on the book's size)
     for (n, v) in [(101usize, "0.18.2"), (257, "0.16.2"), (150, "0.19.1")] {
         let mut h = fork(&base, &format!("W4:versions:large-book:{}:{}", n, v));
